@@ -132,7 +132,11 @@ def gen_cases(rng, tier):
             c = c01.gen_case(rng)
             c["medium"] = "tape"
             cases.append(c)
-    return cases, {"random": n}
+    for is_fd in (True, False):
+        cases.append({"medium": "disk", "is_fd": is_fd, "verbose": True, "add": [{"arg": "z0.dat", "content": {"pat": "43", "len": 2500}}],
+                      "sources": [{"arg": "a.dat", "content": {"pat": "41", "len": 3000}}, {"arg": "b.txt", "content": {"pat": "42", "len": 700}},
+                                  {"arg": "big.bin", "content": {"rand": 9, "len": 315900}}, {"arg": "c.dat", "content": {"pat": "44", "len": 2500}}]})
+    return cases, {"random": n, "fixed": 2}
 
 
 def run_case(case, ctx):
